@@ -277,7 +277,7 @@ type c04Op struct {
 	extra string // "" | "attr" | "hash"
 	deep  []bool // operand i promises its marks at every depth
 	call  func(a []cty.Value, attr string) cty.Value
-	model bool // one of the eighteen modelled methods (else predicate only)
+	model bool // modelled (else predicate only)
 }
 
 var c04Ops = []c04Op{
@@ -299,10 +299,10 @@ var c04Ops = []c04Op{
 	{"length", 1, "", nil, func(a []cty.Value, _ string) cty.Value { return a[0].Length() }, true},
 	{"getattr", 1, "attr", nil, func(a []cty.Value, n string) cty.Value { return a[0].GetAttr(n) }, true},
 	{"haselement", 2, "hash", []bool{false, true}, func(a []cty.Value, _ string) cty.Value { return a[0].HasElement(a[1]) }, true},
-	// compositions of the above: predicate only
-	{"notequal", 2, "", []bool{true, true}, func(a []cty.Value, _ string) cty.Value { return a[0].NotEqual(a[1]) }, false},
-	{"le", 2, "", nil, func(a []cty.Value, _ string) cty.Value { return a[0].LessThanOrEqualTo(a[1]) }, false},
-	{"ge", 2, "", nil, func(a []cty.Value, _ string) cty.Value { return a[0].GreaterThanOrEqualTo(a[1]) }, false},
+	// compositions of the above (Equals is part of each, so marks are kept at every depth)
+	{"notequal", 2, "", []bool{true, true}, func(a []cty.Value, _ string) cty.Value { return a[0].NotEqual(a[1]) }, true},
+	{"le", 2, "", []bool{true, true}, func(a []cty.Value, _ string) cty.Value { return a[0].LessThanOrEqualTo(a[1]) }, true},
+	{"ge", 2, "", []bool{true, true}, func(a []cty.Value, _ string) cty.Value { return a[0].GreaterThanOrEqualTo(a[1]) }, true},
 }
 
 func c04OpByName(name string) *c04Op {
@@ -836,6 +836,7 @@ func c04API(ctx *Ctx, v, other cty.Value) {
 	ctx.Add("mk.unmark", encVal(u1)+" "+c04MarksWire(c04MarkSet(m1)), w)
 	ud, md := v.UnmarkDeep()
 	ctx.Add("mk.unmarkdeep", encVal(ud)+" "+c04MarksWire(c04MarkSet(md)), w)
+	ctx.Add("mk.unmarkdeepr", encVal(ud)+" "+c04MarksWire(c04MarkSet(md)), w)
 	ctx.Add("mk.obs", encBool(v.IsMarked())+" "+encBool(v.ContainsMarked())+" "+c04MarksWire(c04MarkSet(v.Marks())), w)
 	if got, want := c04MarkSet(md), c04Keys(c04DeepSet(v)); strings.Join(got, ",") != strings.Join(want, ",") {
 		failAPI("unmarkdeep-marks", "UnmarkDeep does not return exactly the marks present at any depth", fmt.Sprint(got, " vs ", want))
@@ -900,6 +901,100 @@ func c04API(ctx *Ctx, v, other cty.Value) {
 	}
 	ctx.Add("mk.hassamemarks", encBool(v.HasSameMarks(other)), w, encVal(other))
 	ctx.Add("mk.hassamemarks", encBool(v.HasSameMarks(ws)), w, encVal(ws))
+}
+
+// ---- UnmarkDeep rebuilds sets ------------------------------------------------------
+
+// Two strings whose set hashes (crc32 of their hash bytes) collide: one bucket, two members.
+var c04Tied = [2]string{"10988928-965", "16ff0cb-114"}
+
+// c04Rebuild: sets that hold hash-tied members in an order other than their
+// iteration order.  UnmarkDeep (like every transform) stores them back in
+// iteration order: the payload differs from the model's plain strip, the value is
+// RawEquals-equal.  Compared with the rebuild-faithful model (mk.unmarkdeepr).
+func c04Rebuild(ctx *Ctx) {
+	a, b := cty.StringVal(c04Tied[0]), cty.StringVal(c04Tied[1])
+	tied := false
+	try(func() { tied = cty.VerifHash(a) == cty.VerifHash(b) })
+	ctx.Probe("crc32-tied-strings", tied, "the two corpus strings no longer share a set bucket")
+	if !tied {
+		return
+	}
+	c := cty.StringVal("z")
+	sets := []cty.Value{
+		cty.SetVal([]cty.Value{a, b}), cty.SetVal([]cty.Value{b, a}),
+		cty.SetVal([]cty.Value{b, c, a}), cty.SetVal([]cty.Value{c, b, cty.UnknownVal(cty.String), a, cty.NullVal(cty.String)}),
+	}
+	var vals []cty.Value
+	for _, s := range sets {
+		vals = append(vals, s, s.Mark("m1"),
+			cty.ListVal([]cty.Value{s.Mark("m2"), s}),
+			cty.ObjectVal(map[string]cty.Value{"a": s, "b": cty.StringVal("x").Mark("m3")}).Mark("m1"),
+			cty.SetVal([]cty.Value{cty.ListVal([]cty.Value{s})}),
+			cty.TupleVal([]cty.Value{cty.MapVal(map[string]cty.Value{"k": s.Mark("m2")})}))
+	}
+	for _, v := range vals {
+		w := encVal(v)
+		ctx.Eval("rebuild "+w, len(c04DeepSet(v)) > 0)
+		ctx.Tag("rebuild")
+		ud, md := v.UnmarkDeep()
+		ctx.Add("mk.unmarkdeepr", encVal(ud)+" "+c04MarksWire(c04MarkSet(md)), w)
+		again, _ := ud.UnmarkDeep()
+		if encVal(again) != encVal(ud) {
+			ctx.Fail(Failure{Site: "marks-api", Sig: "unmarkdeep-not-idempotent", What: "UnmarkDeep of an UnmarkDeep result changes the payload again", Input: w, GoLit: c04GoLit([]cty.Value{v}, ""), Outcome: encVal(again)})
+		}
+		// what the property promises: the same value (RawEquals), whatever the storage order
+		plain := c04PlainStrip(v)
+		same := false
+		try(func() { same = ud.RawEquals(plain) })
+		if !same {
+			ctx.Fail(Failure{Site: "marks-api", Sig: "unmarkdeep-changes-value", What: "UnmarkDeep returns a value that is not RawEquals to the value with its markers peeled off", Input: w, GoLit: c04GoLit([]cty.Value{v}, ""), Outcome: encVal(ud)})
+		}
+		if encVal(plain) != encVal(ud) {
+			ctx.Tag("rebuild:storage-order-changed")
+		}
+		// paired operation runs on these values
+		for _, n := range []cty.Value{a, b, c} {
+			c04CheckOp(ctx, c04OpByName("equals"), []cty.Value{v, v}, "")
+			if v.Type().IsSetType() {
+				c04CheckOp(ctx, c04OpByName("haselement"), []cty.Value{v, n.Mark("m3")}, "")
+				c04CheckOp(ctx, c04OpByName("length"), []cty.Value{v}, "")
+			}
+		}
+	}
+}
+
+// c04PlainStrip peels the markers off without rebuilding anything that holds no marker
+// (constructors are used only above a marker).
+func c04PlainStrip(v cty.Value) cty.Value {
+	u, _ := v.Unmark()
+	if !u.ContainsMarked() {
+		return u
+	}
+	ty := u.Type()
+	switch {
+	case ty.IsListType() || ty.IsTupleType():
+		var es []cty.Value
+		for it := u.ElementIterator(); it.Next(); {
+			_, ev := it.Element()
+			es = append(es, c04PlainStrip(ev))
+		}
+		if ty.IsListType() {
+			return cty.ListVal(es)
+		}
+		return cty.TupleVal(es)
+	case ty.IsMapType() || ty.IsObjectType():
+		es := map[string]cty.Value{}
+		for it := u.ElementIterator(); it.Next(); {
+			kv, ev := it.Element()
+			es[kv.AsString()] = c04PlainStrip(ev)
+		}
+		if ty.IsMapType() {
+			return cty.MapVal(es)
+		}
+		return cty.ObjectVal(es)
+	}
+	return u
 }
 
 // ---- constructors -----------------------------------------------------------------
@@ -1023,6 +1118,7 @@ func runC04(ctx *Ctx) {
 		}
 		c04Ctors(ctx, elems)
 	}
+	c04Rebuild(ctx)
 	c04Calls(ctx)
 	c04Convert(ctx)
 	c04Stdlib(ctx)
